@@ -253,7 +253,7 @@ func checkC12(P *Prog, r *Result) {
 	} else {
 		r.undecided("C12/primitive-testfunc-gets-value", "customTestBackwardsCompatWrapper", "-", "wrapper function not found or not a single closure")
 	}
-	r.floor("C12/primitive-testfunc-gets-value", 7)
+	r.floor("C12/primitive-testfunc-gets-value", 4)
 
 	// ---- posttransform-shape ----
 	for _, nf := range P.nodeFuncs() {
@@ -333,7 +333,7 @@ func checkC12(P *Prog, r *Result) {
 			r.ok("C12/posttransform-shape", c, P.pos(nf.Pos()), "one deferred closure in the entry block; gated on !HasErrored(); slice order; first error -> one issue wrapping it, then stop")
 		}
 	}
-	r.floor("C12/posttransform-shape", 6)
+	r.floor("C12/posttransform-shape", 4)
 	// how a callback's error becomes an issue: the error itself if it is a *ZogIssue, else a fresh issue at the
 	// node's path wrapping exactly that error
 	if fn := P.fn("(*zog/internals.SchemaCtx).IssueFromUnknownError"); fn != nil {
@@ -451,7 +451,7 @@ func checkC12(P *Prog, r *Result) {
 			r.ok("C12/preprocess-skip", fname(fn), P.pos(fn.Pos()), fmt.Sprintf("%d issue site(s); none can reach the wrapped schema; preprocess error tested", nIssue))
 		}
 	}
-	r.floor("C12/preprocess-skip", 2)
+	r.floor("C12/preprocess-skip", 1)
 
 	// ---- ctx-values-per-call: ctx.Get sees exactly this call's values. The execution context is pooled:
 	// every field of it (the values map included) is overwritten at acquisition (C07's reinit rule,
